@@ -39,3 +39,41 @@ Proof. induction l as [|a t IH]; simpl; [lia|]. destruct (f a); simpl; lia. Qed.
 
 Lemma option_eq_dec (a b : option nat) : {a = b} + {a <> b}.
 Proof. decide equality. apply Nat.eq_dec. Qed.
+
+Require Import Coq.Sorting.Permutation.
+From Mustache Require Import Res.
+
+Lemma map_upd {A B} (f : A -> B) l i x : map f (upd l i x) = upd (map f l) i (f x).
+Proof. revert i. induction l as [|a t IH]; intros [|i]; simpl; try reflexivity. rewrite IH. reflexivity. Qed.
+
+Lemma Forall_upd {A} (P : A -> Prop) l i x : Forall P l -> P x -> Forall P (upd l i x).
+Proof. intros H Hx. revert i. induction H as [|a t Ha Ht IH]; intros [|i]; simpl; constructor; auto. Qed.
+
+Lemma Forall_firstn' {A} (P : A -> Prop) n l : Forall P l -> Forall P (firstn n l).
+Proof. intros H. revert n. induction H as [|a t Ha Ht IH]; intros [|n]; simpl; constructor; auto. Qed.
+
+Lemma Forall_repeat {A} (P : A -> Prop) n d : P d -> Forall P (repeat d n).
+Proof. intros H. induction n; simpl; constructor; auto. Qed.
+
+Lemma Forall_resize {A} (P : A -> Prop) l n d : Forall P l -> P d -> Forall P (resize l n d).
+Proof. intros H Hd. unfold resize. apply Forall_app. split; [apply Forall_firstn'; assumption|apply Forall_repeat; assumption]. Qed.
+
+Lemma map_repeat' {A B} (f : A -> B) d n : map f (repeat d n) = repeat (f d) n.
+Proof. induction n; simpl; congruence. Qed.
+
+Lemma map_resize {A B} (f : A -> B) l n d : map f (resize l n d) = resize (map f l) n (f d).
+Proof. unfold resize. rewrite map_app, firstn_map, map_repeat', map_length. reflexivity. Qed.
+
+Lemma nth_upd_same {A} (l : list A) i x d : i < length l -> nth i (upd l i x) d = x.
+Proof. revert i. induction l as [|a t IH]; intros [|i] H; simpl in *; try lia; [reflexivity|apply IH; lia]. Qed.
+
+Lemma nth_error_nth' {A} (l : list A) i a d : nth_error l i = Some a -> nth i l d = a.
+Proof. revert i. induction l as [|x t IH]; intros [|i] H; simpl in *; try discriminate; [inversion H; reflexivity|apply IH; assumption]. Qed.
+
+Lemma concat_upd_app_perm {A} (l : list (list A)) i c :
+  i < length l -> Permutation (concat (upd l i (nth i l [] ++ [c]))) (c :: concat l).
+Proof.
+  revert i. induction l as [|x t IH]; intros [|i] H; simpl in *; try lia.
+  - rewrite <- app_assoc. simpl. symmetry. apply Permutation_middle.
+  - eapply perm_trans; [apply Permutation_app_head; apply IH; lia|]. symmetry. apply Permutation_middle.
+Qed.
